@@ -184,6 +184,105 @@ def key_cm(line, impl, model):
     return "clientmap-" + (p.split(":")[0] if ":" in p else "other")
 
 
+# ------------------------------------------------------------------ clientMapInner with MANY clients (count boundaries of a sweep)
+
+def gen_cmb(ctx):
+    """explicit-clock histories in which a LARGE number of records (1025, 2048, 2049, 5000: above any plausible batch
+    size) is expired at ONE sweep: none may remain after that sweep, and the records that are not expired stay.
+    Returns (model-tied lines, implementation-only lines): the model's assoc-list heap is quadratic per sweep, the
+    biggest cases are evaluated by the predicate alone in the quick tier."""
+    rng = ctx.rng
+    tied, alone = [], []
+    def add(T, ops, n):
+        line = "%s cmb %d %s" % (AREA, T, ",".join(ops))
+        # quick tier: the model runs the cases just above the boundary 1024 (a few seconds each); the others are judged by
+        # the predicate alone; thorough tier: everything up to 2049 records is tied (5000: a minute and a half per sweep in the model)
+        (tied if (n == 1025 or (ctx.tier == "thorough" and n <= 2100)) else alone).append(line)
+    T = 10
+    for n in (1023, 1024, 1025, 1026, 2048, 2049, 5000):
+        # all seen at one instant; swept just before, at and after the expiry instant; then seen again (new queues)
+        add(T, ["S0-%d@0:1" % (n - 1), "e9", "e10", "S0-%d@11:1" % min(n - 1, 2), "e30"], n)
+    for n in (1025, 2048, 5000):
+        # ages spread over 0..m-1 (a real heap order): the sweep at T+m-1 expires every record, the one at T+m//2 only
+        # those seen up to m//2: the others stay, with their queues open
+        m = rng.choice([3, 7, 16])
+        add(T, ["S0-%d@0:%d" % (n - 1, m), "e%d" % (T - 1), "e%d" % (T + m // 2), "e%d" % (T + m - 1)], n)
+        # a few clients kept busy among many that leave: only the idle ones go, all of them at once
+        k = rng.randrange(2, 9)
+        busy = sorted(rng.sample(range(n), k))
+        add(T, ["S0-%d@0:1" % (n - 1)] + ["s%d@%d" % (a, 6) for a in busy] + ["e10"] + ["s%d@%d" % (a, 12) for a in busy[:2]] + ["e16", "e22"], n)
+    # two generations: the second arrives while the first is still live; each goes at its own sweep, whole
+    n = rng.choice([1025, 1500, 2048])
+    add(T, ["S0-%d@0:1" % (n - 1), "S%d-%d@5:1" % (n, 2 * n - 1), "e10", "e14", "e15"], 2 * n + 1)
+    return tied, alone
+
+
+def parse_ranges_set(t):
+    return set(parse_ranges(t))
+
+
+def prop_cmb(line, impl, model):
+    """reference monitor on the summaries: after every operation the set of addresses in the map and the set of closed
+    queues are exactly what retention says (kept while now - last_seen < timeout at a sweep, removed and closed otherwise)"""
+    if impl.startswith("!"):
+        return "other: client map driver: " + impl[:200]
+    a = line.split(" ")
+    T = int(a[2])
+    ops = a[3].split(",")
+    outs = impl.split(",")
+    if len(outs) != len(ops):
+        return "other: malformed answer"
+    live, dead, nextq = {}, set(), 0          # addr -> [seen, qid]
+    for idx, (o, r) in enumerate(zip(ops, outs)):
+        if o[0] == "S":
+            rg, tm = o[1:].split("@")
+            lo, hi = (int(x) for x in rg.split("-"))
+            now, m = (int(x) for x in tm.split(":"))
+            sends = [(ad, now + ad % m) for ad in range(lo, hi + 1)]
+        elif o[0] == "s":
+            ad, now = (int(x) for x in o[1:].split("@"))
+            sends = [(ad, now)]
+        else:
+            sends = []
+            now = int(o[1:])
+            for ad in [ad for ad, rec in live.items() if now - rec[0] >= T]:
+                dead.add(live[ad][1])
+                del live[ad]
+        for ad, t in sends:
+            if ad not in live:
+                live[ad] = [t, nextq]
+                nextq += 1
+            live[ad][0] = t
+        try:
+            if r.endswith("!index"):
+                return "index: byAddr and byAge disagree after op %d (%s)" % (idx, o)
+            cnt, la, dq = r.split("/")
+            got_live, got_dead = parse_ranges_set(la), parse_ranges_set(dq)
+            cnt = int(cnt[1:])
+        except ValueError:
+            return "other: malformed answer " + r[:80]
+        where = "after op %d (%s)" % (idx, o)
+        late = got_live - set(live)
+        if late:
+            return ("late: %d client(s) idle for the whole timeout %d are still in the map %s, e.g. client %d (%d records were "
+                    "due at this sweep)" % (len(late), T, where, min(late), len(late) + len(dead & got_dead)))
+        early = set(live) - got_live
+        if early:
+            return "early: %d client(s) seen less than the timeout ago were discarded %s, e.g. client %d" % (len(early), where, min(early))
+        if cnt != len(live):
+            return "index: %d records for %d addresses %s" % (cnt, len(live), where)
+        if dead - got_dead:
+            return "late: %d queue(s) of discarded clients were not closed %s, e.g. queue %d" % (len(dead - got_dead), where, min(dead - got_dead))
+        if got_dead - dead:
+            return "early: %d queue(s) of live clients were closed %s, e.g. queue %d" % (len(got_dead - dead), where, min(got_dead - dead))
+    return None
+
+
+def key_cmb(line, impl, model):
+    p = prop_cmb(line, impl, model) or ""
+    return "clientmap-" + (p.split(":")[0] if ":" in p else "other")
+
+
 # ------------------------------------------------------------------ outgoing queues with contents, explicit clock (qm)
 
 def gen_qm(ctx, cap):
@@ -573,6 +672,22 @@ def gen_redial(ctx):
     add(["D1", "C"], "redial-close")
     add(["D0", "W", "R", "C"], "redial-dial-fails")
     add(["D1", "r0:1", "r0:1", "R", "R", "R", "W", "w0:1", "W", "w0:1", "r0:0", "D0", "W", "R", "R", "C"], "redial-traffic")
+    # Close() DURING a dial that then succeeds (the first dial, a redial after the reader / the writer failed, after
+    # traffic): the carrier that dial hands over must be closed like every other ("closes every carrier it obtained")
+    for pre in ([], ["W"], ["D1", "r0:0"], ["D1", "W", "w0:0"], ["D1", "r0:1", "R", "W", "w0:1", "r0:0"], ["D1", "r0:0", "D1", "W", "w1:0"]):
+        for post in ([], ["W", "R"], ["D1"], ["C"]):
+            add(pre + ["C", "D1"] + post, "redial-close-during-dial")
+            add(pre + ["C", "D1"] + post, "redial-close-during-dial", "redials")
+            if pre[:1] == ["D1"]:
+                # carriers whose Close takes time: the finished carrier's Close returns first (K), the late carrier's last
+                k = sum(1 for t in pre if t == "D1")
+                slow = []
+                nk = 0
+                for t in pre:
+                    slow.append(t)
+                    if t in ("r%d:0" % nk, "w%d:0" % nk):
+                        slow.append("K%d" % nk); nk += 1
+                add(slow + ["C", "D1"] + post + ["K%d" % k], "redial-close-during-dial", "redials")
     # exhaustive short scripts; <cur> = the carrier dialed last
     alpha = ["D1", "W", "r:0", "w:0", "w:1", "C", "D0", "r:1"]
     L = 4 if ctx.tier == "quick" else 5
@@ -666,7 +781,8 @@ def parse_redial(out):
     opn = [] if f["open"] == "e" else f["open"].split(".")
     closes = [] if f["closes"] == "e" else [int(x) for x in f["closes"].split(".")]
     oad = [] if f["oad"] == "e" else [int(x) for x in f["oad"].split(".")]
-    return ans.split(","), int(f["dials"]), opn, int(f["max"]), closes, int(f["left"]), int(f["dialing"]), oad
+    pend = [] if f.get("pend", "e") == "e" else f["pend"].split(".")
+    return ans.split(","), int(f["dials"]), opn, int(f["max"]), closes, int(f["left"]), int(f["dialing"]), oad, pend
 
 
 def prop_redial(line, impl, model):
@@ -677,7 +793,7 @@ def prop_redial(line, impl, model):
         return "other: redial driver: " + impl[:200]
     toks = line.split(" ")[3].split(",")
     try:
-        ans, dials, opn, mx, closes, left, dialing, oad = parse_redial(impl)
+        ans, dials, opn, mx, closes, left, dialing, oad, pend = parse_redial(impl)
     except Exception:
         return "other: malformed answer " + impl[:100]
     ended = False
@@ -696,6 +812,19 @@ def prop_redial(line, impl, model):
         return "double-close: a carrier was closed more than once: %s" % closes
     if len(opn) > 1:
         return "unclosed: more than one carrier left open: %s" % opn
+    # "closes every carrier it obtained": the adapter has ended (Close returned, or a dial failed), no dial is pending
+    # and NONE of its goroutines is left (so no exchange is still waiting for the carrier's pending ReadFrom/WriteTo to
+    # return, and no Close() call of the dial loop is waiting for the script): every carrier it was handed must be
+    # closed -- also the carrier a dial handed over AFTER Close() was called
+    if ended and not dialing and left == 0:
+        stuck = [k for k in opn if k not in pend]
+        if stuck:
+            after_close = any(t == "C" for t in toks) and toks.index("C") < len(toks) - 1 and \
+                any(t == "D1" and r != "n" for t, r in list(zip(toks, ans))[toks.index("C") + 1:])
+            return ("carrier-left-open: carrier(s) %s obtained from dialContext were never closed: the adapter has ended (%s), no dial "
+                    "is pending, none of its goroutines is left%s" % (
+                        ",".join(stuck), "Close" if "C" in toks else "dial failure",
+                        "; the carrier was handed over by a dial that was in progress when Close() was called" if after_close else ""))
     if left > (1 if (dialing or opn) else 0) + 2 * len(opn):
         return "leak: %d goroutines of the adapter are left with %d carrier(s) open and %d dial(s) pending (only the dial loop while it dials or serves a carrier, and two per open carrier, can be live)" % (left, len(opn), dialing)
     return None
@@ -893,7 +1022,8 @@ def monitors(ctx, exe):
     ov = ["%s overlap %d %s %d" % (AREA, nov, side, ms) for side, ms in (("r", 40), ("w", 40), ("b", 30))]
     lines = ["%s leak %d w" % (AREA, n), "%s leak %d r" % (AREA, n),
              "%s sweep %d expire %d" % (AREA, T, 8 if ctx.tier == "quick" else 40),
-             "%s sweep %d keep %d" % (AREA, T, 4 if ctx.tier == "quick" else 16)] + ov
+             "%s sweep %d keep %d" % (AREA, T, 4 if ctx.tier == "quick" else 16),
+             "%s sweep %d mass %d" % (AREA, T, 3300 if ctx.tier == "quick" else 6000)] + ov
     rc, out, err = vlib.run_impl(exe, lines, timeout=600)
     if rc != 0 or len(out) != len(lines):
         ctx.violation("driver-crash", "monitor driver died: " + err[-500:], dict(case=lines[len(out)] if len(out) < len(lines) else None))
@@ -923,7 +1053,19 @@ def monitors(ctx, exe):
     ctx.count(l, kind="sweep-keep")
     if any(x != "ok" for x in r.split(",")):
         ctx.violation("sweep-lost", "a client seen every timeout/4 lost its queue or its queued packet: " + r, dict(case=l, impl=r))
-    for l, r in zip(lines[4:], out[4:]):
+    l, r = lines[4], out[4]
+    ctx.count(l, kind="sweep-mass-expiry")
+    f = r.split(":")
+    if f[0] == "never":
+        ctx.violation("sweep-late", "late: %s of the %s clients that were seen at the same moment and never again still had their queue open %s us "
+                      "later (timeout %d ms, sweep every %d ms): a sweep must discard EVERY record that is due, however many" % (
+                          f[2], l.split(" ")[4], f[1], T, T // 2), dict(case=l, impl=r))
+    elif int(f[0]) < T * 1000:
+        ctx.violation("sweep-early", "a client's queue was closed %s us after it was last seen (timeout %d ms)" % (f[0], T), dict(case=l, impl=r))
+    elif int(f[1]) > 2.5 * T * 1000:
+        ctx.violation("sweep-late", "late: of %s clients seen at the same moment some still had their queue open %s us later (nominal bound "
+                      "1.5 x %d ms, slack 1 x)" % (l.split(" ")[4], f[1], T), dict(case=l, impl=r))
+    for l, r in zip(lines[5:], out[5:]):
         ctx.count(l, kind="overlap-slow-close")
         bad = prop_overlap(l, r)
         if bad:
@@ -981,6 +1123,19 @@ def run(ctx):
         lines2, kinds2 = gen_qm(ctx, cap)
         m2, _ = ctx.correspond(texe, lines2, kinds2, label="outgoing queues, explicit clock", prop=prop_qm, key_of=key_qm, crosscheck=0,
                                impl_args=("-test.run", "TestVerifDriver"))
+        # count boundaries of a sweep: 1025 .. 5000 records expired at once (summaries; no in-Coq cross-check: vm_compute on
+        # thousands of unary naturals costs minutes)
+        tied, alone = gen_cmb(ctx)
+        ctx.correspond(texe, tied, ["cmb-mass-expiry"] * len(tied), label="clientMapInner, many clients", prop=prop_cmb, key_of=key_cmb,
+                       crosscheck=0, impl_args=("-test.run", "TestVerifDriver"))
+        if alone:
+            rc, outs, err = vlib.run_impl(texe, alone, args=("-test.run", "TestVerifDriver"))
+            outs += ["!died"] * (len(alone) - len(outs))
+            for l, r in zip(alone, outs):
+                ctx.count(l, kind="cmb-mass-expiry-implementation-only")
+                bad = prop_cmb(l, r, None)
+                if bad:
+                    ctx.violation(key_cmb(l, r, None), bad, dict(label="clientMapInner, many clients", case=l, impl=r[:2000]))
         # one in-Coq cross-check of the extracted runner for both families (a coqc start costs more than the cases)
         sample = []
         for ls, ms, n in ((lines, m1, 25), (lines2, m2, 20)):
@@ -1022,13 +1177,13 @@ def replay(ctx, doc):
             bad += 1
             continue
         m = vlib.run_model([case])[0]
-        if a[1] in ("cm", "qm"):
+        if a[1] in ("cm", "qm", "cmb"):
             texe = vlib.go_test_build("./common/turbotunnel")
             rc, r, err = vlib.run_impl(texe, [case], args=("-test.run", "TestVerifDriver"))
         else:
             rc, r, err = vlib.run_impl(exe, [case])
         r = r[0] if r else "!died"
-        p = dict(heap=prop_heap, cm=prop_cm, qm=prop_qm, qc=prop_qc, redial=prop_redial, redials=prop_redial, redialq=prop_redialq)[a[1]](case, r, m)
+        p = dict(heap=prop_heap, cm=prop_cm, cmb=prop_cmb, qm=prop_qm, qc=prop_qc, redial=prop_redial, redials=prop_redial, redialq=prop_redialq)[a[1]](case, r, m)
         print("case: %s\n model: %s\n impl:  %s\n property: %s" % (case[:300], m[:300], r[:300], p or "holds"))
         bad += 1 if p else 0
     return 1 if bad else 0
